@@ -102,6 +102,24 @@ func genMutants(src []byte, filename string) ([]mutant, error) {
 				}
 			}
 		}
+		// an added shortcut inside a loop: `if mutEarly { continue }` / `{ break }` as first statement of every loop body
+		ast.Inspect(fd.Body, func(n ast.Node) bool {
+			var body *ast.BlockStmt
+			switch x := n.(type) {
+			case *ast.ForStmt:
+				body = x.Body
+			case *ast.RangeStmt:
+				body = x.Body
+			}
+			if body != nil {
+				at := body.Lbrace + 1
+				o := off(at)
+				for _, kw := range []string{"continue", "break"} {
+					out = append(out, mutant{off: o, end: o, repl: "\nif mutEarly { " + kw + " }\n", op: "early-" + kw, line: fset.Position(at).Line, fn: curFn, orig: "", tail: "\nvar mutEarly bool\n"})
+				}
+			}
+			return true
+		})
 		ast.Inspect(fd.Body, func(n ast.Node) bool {
 			switch x := n.(type) {
 			case *ast.BinaryExpr:
